@@ -53,7 +53,10 @@ var exprPool = []string{
     a +
     b
   )`, "<<EOT\nheredoc ${x} line\n  second\nEOT", "<<-EOT\n    indented ${y.z}\n    EOT", "<<EOT\n${x} at line start\n%{ if c }yes%{ endif }\nEOT", "<<-EOT\n  ${a.b}\n  EOT", `x != null ? x : "default"`, `a.b.c.d.e`, `l[length(l) - 1]`, `"${a}${b}"`, `"$${literal}"`, `1 == 1.0`, `a /* mid */ - b`, `f(/* arg */ x, !y)`, `total-used - 1`, `a[true]`, `a[null].b`, `[x[false], y]`, `"${m[true]}"`,
+	`foo /* why */ .bar`, "(\n    foo\n    .bar[0]\n    .baz\n  )", `x [0] . y`, `f(a /* c */ [1] . b)`, "[1," + sp40 + "2]", "a +" + sp40 + sp40 + "b", `x` + sp40 + `.y`, "[for v in" + sp40 + "l : v]",
 }
+
+const sp40 = "                                        "
 
 func genName(r *rnd) string { return attrNames[r.n(len(attrNames))] }
 
@@ -111,7 +114,7 @@ func genDBody(r *rnd, depth int, n *int) DBody {
 			}
 			used[name] = true
 			it.Name = name
-			it.Eq = r.pick(" = ", " = ", "=", "   =   ", " =", "= ")
+			it.Eq = r.pick(" = ", " = ", "=", "   =   ", " =", "= ", sp40+"= ")
 			it.Expr = exprPool[r.n(len(exprPool))]
 			if strings.HasPrefix(it.Expr, "<<") {
 				it.LineCmt = "" // nothing may follow a heredoc's closing marker
@@ -359,8 +362,13 @@ func genTrav(r *rnd) (string, []TravStep) {
 	var st []TravStep
 	n := r.n(4)
 	for i := 0; i < n; i++ {
-		switch r.n(3) {
-		case 0:
+		switch r.n(7) {
+		case 3:
+			b := r.chance(1, 2)
+			st = append(st, TravStep{Bool: &b})
+		case 4:
+			st = append(st, TravStep{Null: true})
+		case 0, 5:
 			st = append(st, TravStep{Attr: r.pick("y", "name", "for", "z9", "ü")})
 		case 1:
 			s := r.pick("k", "a b", "", "with \"q\"", "${x}")
